@@ -72,6 +72,7 @@ func (k KnockUDPPort) NewGroup() *KnockGroup {
 		DestinationHardwareAddr: k.DestinationHardwareAddr,
 		SourceIP:                k.SourceIP,
 		DestinationIP:           k.DestinationIP,
+		Protocol:                ProtocolUDP,
 		Count:                   0,
 		Knocks: NewUniqueSet(func(v1, v2 interface{}) bool {
 			if _, ok := v1.(KnockUDPPort); !ok {
